@@ -74,9 +74,10 @@ def gen(rng):
             ops += ["lclose a", "census"]
         ops += [f"conn b cb v={rng.choice([4, 5])}", "counts"]
     elif kind == "timeout":
-        ops.append(f"rawconn a v={v}")
-        if rng.random() < 0.5:
-            ops.append("burst a CA:ca")       # enhanced authentication that is never completed
+        auth = rng.random() < 0.5
+        ops.append(f"rawconn a v={5 if auth else v}")
+        if auth:
+            ops.append("burst a CA:ca")       # enhanced authentication that is never completed (the scripted reader must speak v5)
         ops += ["sleep 5150", "census", "counts"]
         if rng.random() < 0.5:
             ops += ["lclose a", "census"]
@@ -311,7 +312,7 @@ def race_predicate(ops, out):
     return predicate(ops, out)
 
 def streams(tier):
-    n = 150 if tier == "quick" else 3000
+    n = 600 if tier == "quick" else 3000
     res = [(LifecycleStream("lifecycle", "broker", gen, predicate, nontrivial, canon=canon, keep_prefix=1, timeout=600), n)]
     if tier == "thorough":
         res.append((LifecycleStream("lifecycle-race", "broker_race", gen, race_predicate, nontrivial, canon=canon, keep_prefix=1,
